@@ -39,7 +39,8 @@ class Prop(object):
     TECHNIQUE = 'exhaustive enumeration of S2K configurations on the real derive_key vs. independent RFC 4880 3.7.1 implementation'
     RULE = ('product of specifier {simple, salted, iterated} x 7 hashes x cipher key sizes {128,192,256} x coded counts (all 256 for the '
             'sweep hashes, edge set for the others) x passphrases (every length 0..70, lengths around salt+passphrase == count, 1000, 5000, '
-            'UTF-8 2/3/4-byte, raw bytes) x salts {zero, 0xFF, seeded}; object built by setters and by parsing the wire form. '
+            'UTF-8 2/3/4-byte, raw bytes) x salts {zero, 0xFF, seeded}; object built by setters and by parsing the wire form; plus every ordered pair of a '
+            '72-configuration alphabet derived one after the other in one process (fresh objects / one object re-configured). '
             'One state = one configuration tuple; distinct by construction.')
     ASSUMPTIONS = ['refpgp.s2k follows RFC 4880 3.7.1 (self-tested against GnuPG-made passphrase-protected fixtures)',
                    'hashlib digests are correct (shared trusted base)']
@@ -67,6 +68,10 @@ class Prop(object):
         for h, _ in HASHES:
             for spec in (0, 1, 3):
                 u.append(('passes', {'hash': h, 'spec': spec, 'seed': seed, 'cipher': 'AES256' if spec != 1 else 'TripleDES'}))
+        # (d) sequences: every ordered pair of configurations of a small alphabet derived one after the other in one process
+        for h in (['SHA1', 'SHA256'] if tier == 'quick' else [x for x, _ in HASHES]):
+            for spec in (0, 1, 3):
+                u.append(('sequence', {'hash': h, 'spec': spec}))
         return u
 
     def run_case(self, check, case):
@@ -178,6 +183,73 @@ class Prop(object):
         r.dim('hash', case['hash'])
         r.dim('spec', spec)
         r.samples.append({'spec': spec, 'hash': case['hash'], 'passphrases': [p[0] for p in plist[:3]] + ['...', plist[-1][0]]})
+        return r
+
+    # ---- sequences -----------------------------------------------------------------------------------------------------------------------
+    SEQ_CIPHERS = ['AES128', 'AES192', 'AES256']
+    SEQ_PASS = ['pw', 'other passphrase']
+    SEQ_SALTS = [bytes(8), bytes(range(1, 9))]
+    SEQ_COUNTS = [0, 17]
+
+    def _seq_configs(self, hname, spec=None):
+        out = []
+        for sp in ((0, 1, 3) if spec is None else (spec,)):
+            for c in self.SEQ_CIPHERS:
+                for pi in range(len(self.SEQ_PASS)):
+                    for si in (range(len(self.SEQ_SALTS)) if sp >= 1 else [0]):
+                        for coded in (self.SEQ_COUNTS if sp == 3 else [0]):
+                            out.append([sp, hname, c, coded, pi, si])
+        return out
+
+    def _configure(self, s, cfg):
+        from pgpy.constants import HashAlgorithm, SymmetricKeyAlgorithm
+        sp, hname, cname, coded, pi, si = cfg
+        cid, klen = [(b, c) for a, b, c in CIPHERS if a == cname][0]
+        s.usage = 255
+        s.encalg = SymmetricKeyAlgorithm(cid)
+        s.specifier = sp
+        s.halg = HashAlgorithm(dict(HASHES)[hname])
+        if sp >= 1:
+            s.salt = bytearray(self.SEQ_SALTS[si])
+        if sp == 3:
+            s.count = coded
+        return rs2k.derive(sp, dict(HASHES)[hname], klen, self.SEQ_PASS[pi].encode(), self.SEQ_SALTS[si], coded)
+
+    def c_sequence(self, case):
+        """Two derivations one after the other in the same process - on fresh specifier objects and on one object re-configured in place - for every
+        ordered pair (first: any specifier kind, second: the unit's kind) of a 72-configuration alphabet that shares hashes, salts, passphrases and
+        counts across cipher key sizes: a derivation is a function of its own configuration only, whatever was derived before."""
+        from pgpy.packet.fields import String2Key
+        r = Res()
+        if 'pair' in case:
+            pairs = [(case['pair'][0], case['pair'][1])]
+            modes = [case['mode']]
+        else:
+            second = self._seq_configs(case['hash'], case['spec'])
+            first = self._seq_configs(case['hash'])
+            pairs = [(a, b) for a in first for b in second if a != b]
+            modes = ['fresh', 'reuse']
+        for a, b in pairs:
+            for mode in modes:
+                r.states += 1
+                r.transitions += 2
+                try:
+                    s1 = String2Key()
+                    want_a = self._configure(s1, a)
+                    got_a = bytes(s1.derive_key(self.SEQ_PASS[a[4]]))
+                    s2 = s1 if mode == 'reuse' else String2Key()
+                    want_b = self._configure(s2, b)
+                    got_b = bytes(s2.derive_key(self.SEQ_PASS[b[4]]))
+                    bad = 'first' if got_a != want_a else ('second' if got_b != want_b else None)
+                    info = 'first got %s want %s; second got %s want %s' % (got_a.hex(), want_a.hex(), got_b.hex(), want_b.hex())
+                except Exception as e:
+                    bad, info = 'exception', repr(e)
+                r.outcomes['sequence:' + (bad or 'ok')] += 1
+                if bad:
+                    r.viol('sequence', {'kind': 'sequence-' + bad, 'mode': mode, 'same_size': a[2] == b[2]}, {'pair': [a, b], 'mode': mode},
+                           'derivation %r then %r (%s specifier objects): %s' % (a, b, 'one re-configured' if mode == 'reuse' else 'two fresh', info))
+        r.dim('hash', case.get('hash', pairs[0][0][1]))
+        r.samples.append({'pair': [pairs[-1][0], pairs[-1][1]], 'modes': modes})
         return r
 
     def _replay_one(self, case):
